@@ -291,6 +291,9 @@ def check_cteq_array(ctx, P, path="<&[u8; N] as constant_time::CtEqual>::ct_eq")
         if e[0] == "bin" and e[1] == "BitOr" and (("var", acc) in (e[2], e[3])):
             other = e[3] if e[2] == ("var", acc) else e[2]
             other = mir.strip_casts(other)
+            if other[0] == "call" and other[1].endswith("BitXor<&u64>>::bitxor") or (other[0] == "call" and re.search(r"as core::ops::BitXor(<.*>)?>::bitxor$", other[1])):
+                steps += 1
+                continue
             if other[0] == "bin" and other[1] == "BitXor":
                 leaves = {pred.canon(x, fn) for x in (other[2], other[3])}
                 steps += 1
